@@ -1,6 +1,7 @@
 package main
 
 import (
+	"sync/atomic"
 	"bytes"
 	"context"
 	"encoding/binary"
@@ -321,10 +322,43 @@ func backendReplyAttack(env *e2e.Env, v primitive.ProtocolVersion, kind string, 
 			b = append(b, 0, 0, byte(len(id)>>8), byte(len(id)))
 			b = append(b, id...)
 			return raw(mk(rq, rv(rq), 0, s, 0, b))
+		case "eventmsg":
+			// a well-formed EVENT (stream -1) on the data connection, then the real answer
+			var ev message.Message
+			switch arg {
+			case "status":
+				ev = &message.StatusChangeEvent{ChangeType: primitive.StatusChangeTypeUp, Address: &primitive.Inet{Addr: []byte{127, 9, 9, 9}, Port: 9042}}
+			case "topology":
+				ev = &message.TopologyChangeEvent{ChangeType: primitive.TopologyChangeTypeNewNode, Address: &primitive.Inet{Addr: []byte{127, 9, 9, 9}, Port: 9042}}
+			default:
+				ev = &message.SchemaChangeEvent{ChangeType: primitive.SchemaChangeTypeCreated, Target: primitive.SchemaChangeTargetKeyspace, Keyspace: "ks"}
+			}
+			var buf bytes.Buffer
+			if fakecass.Codec("").EncodeFrame(frame.NewFrame(rq.Header.Version, -1, ev), &buf) != nil {
+				return fakecass.Response{}, false
+			}
+			ans := mk(rq, rv(rq), 0, s, 8, []byte{0, 0, 0, 1})
+			return raw(append(buf.Bytes(), ans...))
 		case "close":
 			return fakecass.Response{Kind: fakecass.RespClose}, true
 		}
 		return fakecass.Response{}, false
+	}
+	if kind == "hbunprepared" {
+		// once the attacker's PREPARE is in the proxy's cache, every heart-beat (OPTIONS on the pooled connections) is
+		// answered with UNPREPARED naming that statement
+		var armed int32
+		env.Cluster.OptionsHandler = func(c *fakecass.Conn, h *frame.Header) (fakecass.Response, bool) {
+			if atomic.LoadInt32(&armed) == 0 {
+				return fakecass.Response{}, false
+			}
+			return fakecass.Response{Kind: fakecass.RespMsg, Msg: &message.Unprepared{ErrorMessage: "unprepared", Id: []byte("0123456789abcdef")}}, true
+		}
+		defer func() {
+			atomic.StoreInt32(&armed, 1)
+			time.Sleep(500 * time.Millisecond)
+			atomic.StoreInt32(&armed, 0)
+		}()
 	}
 	cl, err := env.Dial(v, "")
 	if err != nil {
@@ -542,7 +576,7 @@ func genHostile(e *emitter, r *rng.R, n int, tier string) {
 		"opcode:0", "opcode:2", "opcode:3", "opcode:6", "opcode:12", "opcode:14", "opcode:16", "opcode:7", "opcode:1", "opcode:99", "opcode:255",
 		"reqdir:8", "reqdir:7", "version:0", "version:132", "version:131", "version:133", "version:194", "version:255", "version:130", "neglen", "truncated:3", "truncated:9", "truncated:11",
 		"event:", "event:00", "event:000d544f504f4c4f47595f4348414e4745", "event:000d5354415455535f4348414e4745000255500403", "event:000d534348454d415f4348414e4745", "event:000d534348454d415f4348414e47450007435245415445440005", "event:ffff",
-		"unsolicited:3000", "unsolicited:0", "unsolicited:-1", "unprepared:0", "unprepared:16", "unprepared:1", "unprepared:300", "close"} {
+		"eventmsg:status", "eventmsg:topology", "eventmsg:schema", "hbunprepared", "unsolicited:3000", "unsolicited:0", "unsolicited:-1", "unprepared:0", "unprepared:16", "unprepared:1", "unprepared:300", "close"} {
 		for _, m := range []int{4, 66} {
 			ops = append(ops, fmt.Sprintf("M:%d B:%s", m, k))
 		}
